@@ -6,6 +6,8 @@ compared with each other (direct oracles) and with the Lean model `Gtirb.Msg`
 import io
 import uuid as uuidlib
 
+import os
+
 import core
 import codec_common as cc
 import irdump
@@ -400,6 +402,11 @@ class CheckedTie(core.BatchTie):
                     good = False
                     if cb and cb(i, ls[i], a, b):
                         continue
+                    if os.environ.get("VERIF_DEBUG"):
+                        core.log("DEBUG mismatch in", tag)
+                        core.log("  line", ls[i])
+                        core.log("   impl", a)
+                        core.log("   lean", b)
                     self.ctx.tie_broken.append(
                         "correspondence:%s %s line %d (%s) impl=%s lean=%s"
                         % (self.name, tag, i, ls[i][:30], a[:120], b[:120]))
